@@ -557,6 +557,7 @@ func runC01(r *Run) {
 	c01Reattach(r)
 	c01Websocket(r)
 	c01DemuxAfterCancel(r)
+	topoSweep(r, "unary")
 	sizes := []int{1, 2, 8, r.Scale(16, 64)}
 	perMode := r.Scale(0, 50000) // calls per topology and transport kind (quick: cycles below)
 	cycles := r.Scale(8, 0)
